@@ -152,8 +152,11 @@ def judge_ops(hist, impl):
         if f[0] in ("outage", "ostale") and f[1] != "up" and line.startswith("ok unchanged="):
             toks = line.split(" | ")[0].split()[1:]
             out.append((i, "outage %s %s" % (f[1], " ".join(toks)), ("outage-" if f[0] == "outage" else "outage-stale-cache-") + f[1]))
-        if f[0] in ("add", "del", "ssave", "sdel", "restart") and cc is not None and prev_c is not None:
-            out.append((i, "cachesame %s %s" % (prev_c, cc), "cache-changed-outside-sync" if f[0] != "restart" else "restart-keeps-cache"))
+        if f[0] in ("add", "del", "ssave", "sdel") and cc is not None and prev_c is not None:
+            out.append((i, "cachesame %s %s" % (prev_c, cc), "cache-changed-outside-sync"))
+        if f[0] == "restart" and cc is not None and prev_c is not None:
+            # after a restart the cache holds what it held (or, should start-up synchronise, the primary's content)
+            out.append((i, "atomic %s %s %s" % (prev_c, p, cc), "restart-keeps-cache"))
         if f[0] == "label" and line.startswith("ok label"):
             out.append((i, "label " + " ".join(line.split(" | ")[0].split()[2:]), "fromCache-label"))
         if f[0] == "flap" and line.startswith("ok flap"):
